@@ -439,6 +439,8 @@ func propSpecs() map[string]*PropSpec {
 	for n := int64(1); n <= 3; n++ {
 		cm(c12, "H_C12_closure", 0, n, fmt.Sprintf("closure clauses on F(%d)", n), "quick")
 	}
+	cm(c12, "H_C12_nul", 3, 0, "labels of 3 units over {NUL, a, A, space} on both sides", "quick")
+	cm(c12, "H_C12_nul", 4, 0, "labels of 4 units over {NUL, a, A, space} on both sides", "thorough")
 	cm(c12, "H_C12_long", 200, 0, "label of 200 x U+0390 + a free letter (400 bytes as written, 1 200 bytes after case folding)", "quick")
 	cm(c12, "H_C12_long", 480, 0, "label of 480 x U+0390 + a free letter (961 characters as written)", "thorough")
 	for _, i := range []int64{5, 6, 8, 10, 11, 12, 13, 14, 15, 83, 84, 85, 89, 93} {
